@@ -1462,6 +1462,14 @@ class ReceivePackHandler(PackHandler):
             return None
         return value if value > 0 else None
 
+    def _has_object(self, sha: ObjectID, zero_sha: ObjectID) -> bool:
+        """Check whether the object store has the new value of a ref update.
+
+        An id of the wrong length for the repository's object format can
+        not name an object in it.
+        """
+        return len(sha) == len(zero_sha) and sha in self.repo.object_store
+
     def _apply_pack(
         self, refs: list[tuple[ObjectID, ObjectID, Ref]]
     ) -> Iterator[tuple[bytes, bytes]]:
@@ -1533,6 +1541,9 @@ class ReceivePackHandler(PackHandler):
                                     "Attempted to delete refs without "
                                     "delete-refs capability."
                                 )
+                        elif not self._has_object(sha, zero_sha):
+                            ref_status = b"missing necessary objects"
+                            has_failure = True
                     except KeyError:
                         ref_status = b"bad ref"
                         has_failure = True
@@ -1591,6 +1602,8 @@ class ReceivePackHandler(PackHandler):
                                 ref_status = b"stale info"
                         except all_exceptions:
                             ref_status = b"failed to delete"
+                    elif not self._has_object(sha, zero_sha):
+                        ref_status = b"missing necessary objects"
                     else:
                         try:
                             if not self.repo.refs.set_if_equals(ref, oldsha, sha):
